@@ -66,17 +66,6 @@ def algOf (name : String) : Except String (AtomAlg Term) :=
   | "any" => pure termAlgAny
   | _ => throw s!"unknown atom algebra {name}"
 
-def tokBeq : Tok Term → Tok Term → Bool
-  | .none, .none => true
-  | .atom a, .atom b => a == b
-  | .op i x, .op j y => i == j && x == y
-  | _, _ => false
-
-def toksBeq : List (Tok Term) → List (Tok Term) → Bool
-  | [], [] => true
-  | a :: as, b :: bs => tokBeq a b && toksBeq as bs
-  | _, _ => false
-
 /-- model on a string -/
 def solveReq (j : Json) : Except String Json := do
   let (tbl, steps) ← config (← (← field j "cfg").getStr?)
@@ -93,13 +82,13 @@ def specReq (j : Json) : Except String Json := do
   let lit : List Char → Term := .num
   let text := render bl e
   let tk := toks tbl termAlg lit e
-  let tokOk := match tokenize tbl termAlg steps text with
-    | .ok l => toksBeq l tk
-    | .error _ => false
+  let tokd := match tokenize tbl termAlg steps text with
+    | .ok l => jarr tokJson l
+    | .error m => Json.mkObj [("err", jstr m)]
   pure (Json.mkObj [("text", jstr (String.ofList text)), ("wf", Json.bool e.wf),
     ("eval", termJson (eval termAlg lit e)),
     ("toksolve", outJson (solveToks tbl termAlg steps tk)),
-    ("tokenize_ok", Json.bool tokOk)])
+    ("toks", jarr tokJson tk), ("tokenized", tokd)])
 
 /-- float-literal recogniser -/
 def litReq (j : Json) : Except String Json := do
